@@ -251,6 +251,54 @@ def _run_cli(cmd, text, wall):
     return out if out in ("sat", "unsat") else "unknown"
 
 
+def _race(cmds, text):
+    """run several solver binaries on the same query concurrently; the first sat/unsat wins, the others are killed.
+    cmds: [(argv, backend name, wall seconds)].  Returns (result, backend)."""
+    fd, path = tempfile.mkstemp(suffix=".smt2", prefix="pyvc_")
+    os.write(fd, text.encode())
+    os.close(fd)
+    procs = []
+    try:
+        t0 = time.time()
+        for argv, name, wall in cmds:
+            try:
+                procs.append((subprocess.Popen(argv + [path], stdout=subprocess.PIPE, stderr=subprocess.DEVNULL, text=True), name, wall))
+            except Exception:
+                pass
+        live = list(procs)
+        while live:
+            for item in list(live):
+                pr, name, wall = item
+                rc = pr.poll()
+                if rc is not None:
+                    live.remove(item)
+                    try:
+                        out = (pr.stdout.read() or "").strip().split("\n")[0]
+                    except Exception:
+                        out = ""
+                    if out in ("sat", "unsat"):
+                        return out, name
+                elif time.time() - t0 > wall:
+                    pr.kill()
+                    live.remove(item)
+            if live:
+                time.sleep(0.01)
+        return "unknown", cmds[-1][1]
+    finally:
+        for pr, _, _ in procs:
+            if pr.poll() is None:
+                try:
+                    pr.kill()
+                except Exception:
+                    pass
+            try:
+                pr.wait(timeout=2)
+                pr.stdout.close()
+            except Exception:
+                pass
+        os.unlink(path)
+
+
 def solve_plans(plans, timeout_ms):
     """portfolio over solver binaries (runs in a worker thread; only strings are touched).
     Returns (result, backend, ms)."""
@@ -260,19 +308,17 @@ def solve_plans(plans, timeout_ms):
     for variants in plans:
         done = False
         for label, text in variants[:-1]:
-            r = _run_cli(["z3-new", "-t:1500"], text, 10)
+            r, be = _race([(["z3-new", "-t:1500"], "z3-5.1", 10),
+                           (["/usr/bin/cvc5", "--strings-exp", "--tlimit=1500"], "cvc5-1.0.3", 10)], text)
             if r == "unsat":
-                backends.add("z3-5.1")
+                backends.add(be)
                 done = True
                 break
         if done:
             continue
         full = variants[-1][1]
-        r = _run_cli(["z3-new", "-t:%d" % min(QUICK_MS, timeout_ms)], full, 10 + QUICK_MS // 1000)
-        be = "z3-5.1"
-        if r == "unknown":
-            r = _run_cli(["/usr/bin/cvc5", "--strings-exp", "--tlimit=%d" % (tsec * 1000)], full, tsec + 5)
-            be = "cvc5-1.0.3"
+        r, be = _race([(["z3-new", "-t:%d" % min(QUICK_MS, timeout_ms)], "z3-5.1", 10 + QUICK_MS // 1000),
+                       (["/usr/bin/cvc5", "--strings-exp", "--tlimit=%d" % (tsec * 1000)], "cvc5-1.0.3", tsec + 5)], full)
         if r == "unknown":
             r = _run_cli(["/usr/bin/z3", "-T:%d" % tsec], full, tsec + 5)
             be = "z3-4.8.12"
@@ -316,6 +362,9 @@ def watch_terms(ev, env, ghosts, maxlist=8):
                 add("%s[%d]" % (prefix, i), it, depth)
         elif isinstance(v, VNone):
             watch[prefix] = z3.StringVal("<None>")
+        elif isinstance(v, VOpt):
+            watch[prefix + "?none"] = v.n
+            add(prefix, v.val, depth)
         elif isinstance(v, VRef) and depth < 3:
             o = st.old_heap.get(v.oid) if st.old_heap else st.obj(v)
             if o is None:
@@ -442,6 +491,7 @@ def verify_contract(contract: Contract, registry: Registry, timeout_ms=30000, lo
             undecided_paths.append("path limit %d reached" % MAX_PATHS)
             break
         run = Run(script, None)
+        run.lazy_opt = bool(getattr(contract, "lazy_opt", False))
         if refute is not None:
             run.refute = True
             run.bound = refute.get("bound", 2)
@@ -582,9 +632,22 @@ def verify_contract(contract: Contract, registry: Registry, timeout_ms=30000, lo
     if pending:
         import concurrent.futures as _cf
         with _cf.ThreadPoolExecutor(max_workers=int(os.environ.get("PYVC_SOLVER_JOBS", "6"))) as ex:
-            futs = [ex.submit(solve_plans, plans, tmo) for _, _, plans in pending]
+            refuted_names = set()
+
+            def _task(name, plans):
+                # one counterexample decides an obligation: further instances of a name that is already refuted are
+                # not solved (a changed tree otherwise spends the whole portfolio on every path)
+                if name in refuted_names:
+                    return "skipped", "-", 0.0
+                out = solve_plans(plans, tmo)
+                if out[0] == "sat":
+                    refuted_names.add(name)
+                return out
+            futs = [ex.submit(_task, ob.name, plans) for ob, _, plans in pending]
             outs = [f.result() for f in futs]
         for (ob, watch, plans), (r, be, ms) in zip(pending, outs):
+            if r == "skipped":
+                continue
             res = results.get(ob.name)
             if res is None:
                 res = results[ob.name] = ObResult(ob.name, "obligation")
